@@ -53,6 +53,9 @@ VerdictStore(r) ==
          ELSE IF s.nv # r.final THEN "recorded_events_do_not_explain_the_final_count"
          ELSE IF s.bad > 0 THEN "zero_or_non_integer_literal"
          ELSE IF s.mm > r.final THEN "literal_out_of_range"
+         \* the final formula as it lists itself, whatever route its clauses took into it
+         ELSE IF Has(r, "listed") /\ r.listed.bad > 0 THEN "zero_or_non_integer_literal"
+         ELSE IF Has(r, "listed") /\ r.listed.mm > r.final THEN "literal_out_of_range"
          ELSE IF r.final # ExpectedCount(r) THEN "declared_count_differs_from_documented"
          ELSE "ok"
 
